@@ -143,8 +143,8 @@ theorem inv_nbFail {v : Variant} {w : World} (h : Inv v w) : Inv v (nbFail v w) 
       cases hv : v.nbFree
       · right; simp
       · left; simp [TornDown]
-  · obtain ⟨k1, k2, k3, k4, k5, k6, k7⟩ := h.counters
-    refine ⟨?_, k2, k3, k4, k5, k6, k7⟩
+  · obtain ⟨k1, k2, k3, k4, k5, k6, k7, k8⟩ := h.counters
+    refine ⟨?_, k2, k3, k4, k5, k6, k7, k8⟩
     intro hv; simp [hv, k1 hv]
   · intro s' hs'
     simp only at hs'
@@ -187,8 +187,8 @@ theorem liveOpen_wsStage {v : Variant} {w : World} {i : Nat} (h : LiveOpen v w i
   · have h1 := liveOpen_modConn h (fun c => { c with wspath := true }) (by intro c; simp)
     obtain ⟨hinv, hi, ho⟩ := h1
     refine ⟨inv_of_same hinv rfl rfl rfl ?_, hi, ho⟩
-    obtain ⟨k1, k2, k3, k4, k5, k6, k7⟩ := hinv.counters
-    refine ⟨k1, k2, k3, ?_, k5, k6, k7⟩
+    obtain ⟨k1, k2, k3, k4, k5, k6, k7, k8⟩ := hinv.counters
+    refine ⟨k1, k2, k3, ?_, k5, k6, k7, k8⟩
     intro hv
     have := k4 hv
     simp at this
